@@ -119,6 +119,9 @@ def ic() -> IC:
 
 # ---------------------------------------------------------------- mixed radix
 
+BOUND_PREFIXES = {"uq", "nz", "sd", "ph", "mx", "sc", "g", "i", "fv"}
+
+
 def enc(dims, idx):
     """C-order linear index of idx in an array of the given dims."""
     p = _t(idx[0])
@@ -149,6 +152,22 @@ def dec(dims, p, order="C"):
         return out[::-1]
     if p.is_const and all(is_conc(d) for d in dims):
         return [tm.const(int(v)) for v in np.unravel_index(int(p.value), dims)]
+    if all(is_conc(d) for d in dims[:-1]) and int(np.prod(dims[:-1])) <= 64:
+        # leading extents concrete, last one symbolic: block b = p div n by an ite chain over the (few) blocks, exact, no div/mod
+        B = int(np.prod(dims[:-1]))
+        nlast = _t(dims[-1])
+        lead = [np.unravel_index(b, dims[:-1]) for b in range(B)]
+        out = []
+        for k in range(n - 1):
+            e = tm.const(int(lead[B - 1][k]))
+            for b in reversed(range(B - 1)):
+                e = tm.ite(tm.lt(p, tm.mul(tm.const(b + 1), nlast)), tm.const(int(lead[b][k])), e)
+            out.append(e)
+        blk = tm.const(B - 1)
+        for b in reversed(range(B - 1)):
+            blk = tm.ite(tm.lt(p, tm.mul(tm.const(b + 1), nlast)), tm.const(b), blk)
+        out.append(tm.sub(p, tm.mul(blk, nlast)))
+        return out
     c = ic()
     c.axiom("mixed-radix decode (lemma lemmas/mixed-radix)")
     dargs = [_t(d) for d in dims[1:]]
@@ -161,7 +180,11 @@ def dec(dims, p, order="C"):
     for k in range(n):
         facts.append(tm.le(tm.const(0), ds[k]))
         facts.append(tm.lt(ds[k], _t(dims[k])))
-    c.add(tm.implies(inr, tm.and_(*facts)))
+    bound = [v for v in tm.subterms(p) if v.op == "var" and "!" in v.args[0] and v.args[0].split("!")[0] in BOUND_PREFIXES]
+    if bound:
+        c.add(tm.forall(bound, tm.implies(inr, tm.and_(*facts)), patterns=[[ds[0]]]))
+    else:
+        c.add(tm.implies(inr, tm.and_(*facts)))
     return ds
 
 
@@ -761,6 +784,14 @@ class SRange:
         raise Unsupported("len(range(symbolic))")
 
 
+def slen(x):
+    """len() that may return a symbolic extent for symbolic arrays."""
+    if isinstance(x, SArr):
+        d = x._shape[0]
+        return d if is_conc(d) else S(d)
+    return builtins.len(x)
+
+
 def srange(*a):
     if any(isinstance(x, (S, T)) and not _t(x).is_const for x in a):
         if len(a) != 1:
@@ -1079,7 +1110,9 @@ def np_unique(A, return_index=False, return_inverse=False, return_counts=False, 
             raise Unsupported("unique(axis=1) with symbolic row count")
         P = _t(A._shape[1])
         col = lambda p: [A._get((tm.const(k), p)) for k in range(r)]
-    elif axis is None and A.ndim == 1:
+    elif axis is None and A.ndim >= 1:
+        if A.ndim > 1:
+            A = A.flatten()
         r = 1
         P = _t(A._shape[0])
         col = lambda p: [A._get((p,))]
@@ -1114,6 +1147,20 @@ def np_unique(A, return_index=False, return_inverse=False, return_counts=False, 
     if return_inverse:
         out.append(SArr((P,), lambda idx, f=ixb: tm.app(f, INT, idx[0]), INT))
     return out[0] if len(out) == 1 else tuple(out)
+
+
+def hint_unique(Uarr, p):
+    """ground instance of the np.unique membership axiom at flat position p of the (flattened) source array."""
+    rec = Uarr.unique_of
+    A, ixb, ne = rec["src"], rec["ixb"], rec["ne"]
+    p = _t(p)
+    if A.ndim != 1:
+        raise Unsupported("hint_unique on axis-unique")
+    P = _t(A._shape[0])
+    ib = tm.app(ixb, INT, p)
+    uname = Uarr.get((ib,))
+    ic().add(tm.implies(tm.and_(tm.le(tm.const(0), p), tm.lt(p, P)),
+                        tm.and_(tm.le(tm.const(0), ib), tm.lt(ib, ne), tm.eq(uname, A._get((p,))))))
 
 
 def np_flatten_like(A, *a, **k):
@@ -1198,7 +1245,7 @@ def mode_i(modules, extra_globals=None):
     for mod in modules:
         if isinstance(mod, str):
             mod = sys.modules[mod]
-        for attr, val in [("np", model), ("range", srange)] + list((extra_globals or {}).items()):
+        for attr, val in [("np", model), ("range", srange), ("len", slen)] + list((extra_globals or {}).items()):
             saved.append((mod, attr, mod.__dict__.get(attr, _MISSING)))
             setattr(mod, attr, val)
     try:
